@@ -18,7 +18,7 @@ func init() {
 		ID:          "C04",
 		Level:       "other",
 		Run:         runC04,
-		Explanation: "Decides that the mechanisms of the hazard discipline are wired as it requires, on every variant: R04.1 the hazard classifiers equal the reference (RAW = reads∩pending writes, WAW = writes∩pending writes, WAR = writes∩pending reads, zero register skipped); R04.2 the control unit's dispatch predicates equal the reference (conflict with held-back instructions; forwarding only for exactly one RAW hazard with a producer dispatched in the previous cycle; renaming only for exactly one non-RAW hazard) and every dispatch is guarded by 'no hazard', the forwarding predicate or the renaming predicate; R04.3 the scoreboard is raised at dispatch and released after the architectural write, in the same block; R04.4 forwarding wiring (one channel of capacity 1 shared by producer and consumer, the forwarded register is the hazard's, the producer sends its result exactly when it has a forwarder, the consumer receives before it runs); R04.5 register read precedence; R04.6 declared read/write sets are exact; R04.7 the scoreboard touches only the scoreboard; R04.8 where renaming can put two writers of a register in flight, the forwarding decision accounts for it; R04.9 all register-reading calls of one variant pass the same sequence tag; R04.10 wiring a forward writes only the producer's Forwarder, so an instruction that is the consumer of one forward and the producer of the next keeps the register it is waiting for. Does not decide that the discipline is sufficient under every dispatch interleaving (a schedule/value question).",
+		Explanation: "Decides that the mechanisms of the hazard discipline are wired as it requires, on every variant: R04.1 the hazard classifiers equal the reference (RAW = reads∩pending writes, WAW = writes∩pending writes, WAR = writes∩pending reads, zero register skipped); R04.2 the control unit's dispatch predicates equal the reference (conflict with held-back instructions; forwarding only for exactly one RAW hazard with a producer dispatched in the previous cycle; renaming only for exactly one non-RAW hazard) and every dispatch is guarded by 'no hazard', the forwarding predicate or the renaming predicate; R04.3 the scoreboard is raised at dispatch and released after the architectural write, in the same block; R04.4 forwarding wiring (one channel of capacity 1 shared by producer and consumer, the forwarded register is the hazard's, the producer sends its result exactly when it has a forwarder, the consumer receives before it runs); R04.5 register read precedence; R04.6 declared read/write sets are exact; R04.7 the scoreboard touches only the scoreboard; R04.8 where renaming can put two writers of a register in flight, the forwarding predicate equals the renaming reference (forward only from the single writer dispatched in the previous cycle when no writer was dispatched in the current cycle); R04.9 all register-reading calls of one variant pass the same sequence tag; R04.11 every path through the control unit's step rotates the previous-cycle set the forwarding predicate relies on; R04.10 wiring a forward writes only the producer's Forwarder, so an instruction that is the consumer of one forward and the producer of the next keeps the register it is waiting for. Does not decide that the discipline is sufficient under every dispatch interleaving (a schedule/value question).",
 		Assumptions: []string{"dispatch interleavings beyond the structural rules are not explored"},
 		Trusted:     []string{"go/types", "term engine", "reference models spec/risc_state.go.txt, spec/cu.go.txt"},
 	})
@@ -71,6 +71,7 @@ func runC04(r *Run) {
 	r.floor("R04.1", 4)
 	r.floor("R04.2", 22)
 	r.floor("R04.10", 6)
+	r.floor("R04.11", 6)
 	r.floor("R04.3", 9)
 	r.floor("R04.4", 12)
 	r.floor("R04.5", 1)
@@ -112,10 +113,23 @@ func runC04(r *Run) {
 			}
 			tn := f.unitT.Obj().Name()
 			hasMethod := func(n string) bool { return hasDeclMethod(f.unitT, n) != nil }
+			// the variants with renaming are compared with the renaming reference: its forwarding predicate
+			// refuses when the youngest writer of the register cannot be identified (R04.8)
+			ref := "cu"
+			if hasMethod("shouldUseRenaming") {
+				ref = "cu_rename"
+			}
 			for _, m := range []string{"isDataHazardWithSkippedRunners", "shouldUseForwarding", "shouldUseRenaming"} {
 				if hasMethod(m) {
-					conform(r, "R04.2", v.rel, tn, m, "cu", nil)
+					rule := "R04.2"
+					if m == "shouldUseForwarding" && ref == "cu_rename" {
+						rule = "R04.8"
+					}
+					conform(r, rule, v.rel, tn, m, ref, nil)
 				}
+			}
+			if hasMethod("shouldUseForwarding") {
+				ruleForwardWindow(r, v, f)
 			}
 			// every dispatch in the decision function is guarded
 			for i := 0; i < f.unitT.NumMethods(); i++ {
@@ -137,24 +151,6 @@ func runC04(r *Run) {
 				}
 				ruleDispatchGuards(r, v, f, fd)
 				ruleForwardWiring(r, v, f, fd)
-			}
-			// R04.8: two writers in flight
-			if hasMethod("shouldUseRenaming") {
-				fd, _ := w.Method(v.rel, tn, "shouldUseForwarding")
-				aware := false
-				if fd != nil {
-					ast.Inspect(fd.Body, func(n ast.Node) bool {
-						if sel, ok := n.(*ast.SelectorExpr); ok && (sel.Sel.Name == "PendingWriteRegisters" || sel.Sel.Name == "SequenceID") {
-							aware = true
-						}
-						return true
-					})
-				}
-				pos := token.NoPos
-				if fd != nil {
-					pos = fd.Pos()
-				}
-				r.check(aware, "R04.8", fmt.Sprintf("%s.(%s).shouldUseForwarding:multiple-writers", v.rel, tn), pos, "renaming lets a second writer of a register be dispatched while the first is in flight; the forwarding decision must then pick the youngest writer (by sequence id) or require a single pending writer — it looks only at the set of instructions dispatched in the previous cycle")
 			}
 		}
 		// R04.3 scoreboard release after the architectural write
@@ -529,4 +525,110 @@ func ruleSequenceTagAgreement(r *Run, v *variant) {
 		return
 	}
 	r.check(len(kinds) == 1, "R04.9", v.rel+":sequence-tag", first, "all register-reading calls of the execute units pass the same sequence tag %v (an address computed with the newest register value and an execution with the tag-bounded one read different versions of a renamed register)", kinds)
+}
+
+// ruleForwardWindow (R04.11): the forwarding predicate trusts that the set of
+// instructions "dispatched in the previous cycle" really is the previous cycle's:
+// their producers have not executed yet, so a Forwarder wired now is still seen.
+// The control unit's step must therefore rotate that set (previous := current) on
+// EVERY path through the step. A path that returns without rotating leaves a
+// two-cycle-old set behind: the next step wires a forward to a producer that has
+// already executed and the consumer waits for ever.
+func ruleForwardWindow(r *Run, v *variant, f *fieldRole) {
+	info := v.info
+	w := r.W
+	for i := 0; i < f.unitT.NumMethods(); i++ {
+		fd, _ := w.FuncDecl(f.unitT.Method(i))
+		if fd == nil || fd.Body == nil {
+			continue
+		}
+		// the rotation: recv.P = recv.C with P, C fields of the same map type
+		var rot *ast.AssignStmt
+		var pField types.Object
+		var deferAt token.Pos
+		var walk func(n ast.Node, inDefer token.Pos)
+		walk = func(n ast.Node, inDefer token.Pos) {
+			ast.Inspect(n, func(m ast.Node) bool {
+				if ds, ok := m.(*ast.DeferStmt); ok {
+					if lit, ok := ds.Call.Fun.(*ast.FuncLit); ok {
+						walk(lit.Body, ds.Pos())
+						return false
+					}
+				}
+				as, ok := m.(*ast.AssignStmt)
+				if !ok || len(as.Lhs) != 1 || len(as.Rhs) != 1 || as.Tok != token.ASSIGN {
+					return true
+				}
+				ls, ok1 := ast.Unparen(as.Lhs[0]).(*ast.SelectorExpr)
+				rs, ok2 := ast.Unparen(as.Rhs[0]).(*ast.SelectorExpr)
+				if !ok1 || !ok2 {
+					return true
+				}
+				l, r2 := info.Selections[ls], info.Selections[rs]
+				if l == nil || r2 == nil || l.Kind() != types.FieldVal || r2.Kind() != types.FieldVal || l.Obj() == r2.Obj() {
+					return true
+				}
+				if _, isMap := l.Obj().Type().Underlying().(*types.Map); !isMap || !types.Identical(l.Obj().Type(), r2.Obj().Type()) {
+					return true
+				}
+				rot, pField, deferAt = as, l.Obj(), inDefer
+				return true
+			})
+		}
+		walk(fd.Body, token.NoPos)
+		if rot == nil {
+			continue
+		}
+		// the limit before which a return skips the rotation
+		limit := rot.Pos()
+		if deferAt != token.NoPos {
+			limit = deferAt
+		}
+		var skipping []string
+		ast.Inspect(fd.Body, func(m ast.Node) bool {
+			if _, ok := m.(*ast.FuncLit); ok {
+				return false
+			}
+			ret, ok := m.(*ast.ReturnStmt)
+			if !ok || ret.Pos() > limit {
+				return true
+			}
+			// an assignment to the field earlier in the return's own block (or an enclosing one) clears the window
+			cleared := false
+			ast.Inspect(fd.Body, func(k ast.Node) bool {
+				as, ok := k.(*ast.AssignStmt)
+				if !ok || as.End() > ret.Pos() {
+					return true
+				}
+				for _, l := range as.Lhs {
+					if sel, ok := ast.Unparen(l).(*ast.SelectorExpr); ok {
+						if s := info.Selections[sel]; s != nil && s.Obj() == pField {
+							// same or enclosing block: the assignment's enclosing block contains the return
+							if blk := enclosingBlock(fd.Body, as); blk != nil && blk.Pos() <= ret.Pos() && ret.End() <= blk.End() {
+								cleared = true
+							}
+						}
+					}
+				}
+				return true
+			})
+			if !cleared {
+				skipping = append(skipping, w.Fset.Position(ret.Pos()).String())
+			}
+			return true
+		})
+		r.check(len(skipping) == 0, "R04.11", fmt.Sprintf("%s.(%s).%s:window-rotated", v.rel, f.unitT.Obj().Name(), fd.Name.Name), rot.Pos(), "every path through the control unit's step rotates the previous-cycle set %s (a stale set makes the next step wire a forward to a producer that has already executed: the consumer waits for ever); returns that skip it: %v", pField.Name(), skipping)
+	}
+}
+
+// enclosingBlock: the innermost block statement of root that contains n.
+func enclosingBlock(root ast.Node, n ast.Node) *ast.BlockStmt {
+	var best *ast.BlockStmt
+	ast.Inspect(root, func(m ast.Node) bool {
+		if b, ok := m.(*ast.BlockStmt); ok && b.Pos() <= n.Pos() && n.End() <= b.End() {
+			best = b
+		}
+		return true
+	})
+	return best
 }
